@@ -592,8 +592,8 @@ var canaryFuncs = map[string]func() error{
 	"allocates": func() error { canarySink = append(canarySink[:0], make([]byte, 8<<20)); return nil }, // 8 MiB held for 16 bytes
 	"slow":      func() error { time.Sleep(2 * deadline); return nil },                                 // returns before the long deadline: an observation
 	"hangs":     func() error { time.Sleep(3 * longDeadline); return nil },                             // does not
-	"churns": func() error { // 16 MiB of garbage in total, 32 KiB held at any time, at the pace of a parser (~400 MB/s)
-		for i := 0; i < 512; i++ {
+	"churns": func() error { // 64 MiB of garbage in total, 32 KiB held at any time, at the pace of a parser (~400 MB/s); "input" 64 KiB
+		for i := 0; i < 2048; i++ {
 			b := make([]byte, 32<<10)
 			h := sha256.Sum256(b)
 			b[0] = h[0]
@@ -605,10 +605,13 @@ var canaryFuncs = map[string]func() error{
 
 func (w *worker) canaries() {
 	ul := &unitLine{K: "unit", Entry: "canary", Type: "canary", Classes: map[string]int{}}
-	in := make([]byte, 16)
 	var items []item
 	for i, name := range []string{"benign", "panics", "allocates", "slow", "hangs", "churns"} {
 		name := name
+		in := make([]byte, 16)
+		if name == "churns" {
+			in = make([]byte, 64<<10) // bound 5 MiB: the measure's resolution (what is allocated during one forced collection) is 1-3 MB
+		}
 		items = append(items, item{idx: i, key: "canary/" + name, n: len(in), class: name, run: canaryFuncs[name], entry: "canary", typ: name, in: in,
 			fail: func(kind string, o outcome, alloc uint64) {
 				w.violation("canary/"+name+"/"+kind, describe(kind, o, alloc, len(in)), map[string]any{"stack": o.Stack})
